@@ -1,7 +1,7 @@
 #!/bin/bash
 # Runs every check's quick batch (reduced run count) in separate processes with different worker counts and
 # compares the batch event-log hash (order-independent merge => must be identical).
-cd /verif
+cd "$(dirname "$0")/.."
 N="${1:-3000}"
 BAD=0
 for P in C01 C02 C03 C04 C05 C06 C07 C08 C09 C10 C11 C12 C13 C14 C15 C16 C17; do
